@@ -28,6 +28,11 @@ Theorem cache_no_internal_error : forall n maxAge h,
   1 <= n -> monotone h -> all_documented h (outcomes n maxAge h) = true.
 Proof. exact cache_no_internal_error_all. Qed.
 
+(* the invariant _purge's early exit relies on: live slots carry non-decreasing timestamps *)
+Theorem cache_timestamps_sorted : forall n maxAge h,
+  1 <= n -> monotone h -> live_slots_sorted (final_cache n maxAge h).
+Proof. exact cache_timestamps_sorted_all. Qed.
+
 (* Residue: the guard 1 <= maxEntries cannot be dropped.  SessionCache(0) (accepted by the
    constructor) raises IndexError from every store after having inserted into the dict. *)
 Theorem cache_zero_capacity_refuted : exists maxAge h,
@@ -90,6 +95,15 @@ Proof. exact extracted_methods_ok. Qed.
 (* (Before commit d3942bb, "BaseDB.keys() must copy the key view while holding the lock", this was
    refuted by VerifierDB.keys and held for the other eight methods only.) *)
 
+(* every clock read (time.time()) of the analysed methods is inside the critical section, and a
+   SessionCache call reads the clock exactly once: the timestamp is taken at the linearization point,
+   which is what makes the timestamps non-decreasing along the list (cache_timestamps_sorted) and
+   is an assumption of the sequential model that cache_linearizable builds on *)
+Theorem extracted_clock_reads_locked :
+  forallb (fun m : xmethod => let '(_, _, p) := m in clock_locked false p) all_methods = true /\
+  count_clock SessionCache_getitem = 1%nat /\ count_clock SessionCache_setitem = 1%nat.
+Proof. exact extracted_clock_facts. Qed.
+
 Theorem extracted_methods_complete :
   map (fun m : xmethod => let '(c, n, _) := m in (c, n)) all_methods =
   [("SessionCache", "__getitem__"); ("SessionCache", "__setitem__");
@@ -123,7 +137,16 @@ Theorem object_serializable : forall (Lo V W Call R : Type) (mstep : W -> Call -
     Forall (fun r => r <> None) (snd (mserial W Call R mstep calls order (absS st0, map (fun _ => None) calls))).
 Proof. exact object_serializable_all. Qed.
 
-(* SessionCache: the access pattern is the one extracted from /repo (Gen/Locks.v), the
+(* SessionCache.  Hypothesis 1: the access pattern of `sem` is the one extracted from /repo
+   (Gen/Locks.v) -- this includes the clock read (XClock, a shared read) INSIDE the critical section.
+   Hypothesis 2: run alone, a call does what Model.C18_Cache.apply does with the clock value read
+   at that point (cache_mstep: clock = previous reading + a per-call advance).  Together they say
+   "the timestamp is taken at the linearization point"; hence along any sequential order the clock
+   values are non-decreasing (serial_calls_refine_spec: the history is monotone) and the list stays
+   ordered in time (cache_timestamps_sorted).  If the code read the clock before acquiring the lock,
+   hypothesis 1 would fail on the extracted list (extracted_lock_discipline breaks) -- the seeded
+   change "build the list element before taking the lock" is exactly that.
+   The access pattern is the one extracted from /repo (Gen/Locks.v), the
    sequential behaviour of a call is Model.C18_Cache.apply at the clock value the call reads
    inside its critical section (clock = previous reading + a per-call advance).  Every
    interleaving of any number of __getitem__/__setitem__ calls equals the sequential model
